@@ -261,3 +261,38 @@ def replay_discipline(ctx, only_terminate=False):
     fs = {f for _, _, f, _ in q.self_writes(rs)}
     if not {'cache_full', 'cache_pointer', 'missing_flush_and_restart'} <= fs:
         ctx.viol('%s|reset|incomplete' % rs.path, rs.at, 'reset() no longer resets %s' % sorted({'cache_full', 'cache_pointer', 'missing_flush_and_restart'} - fs), None)
+
+
+@rule('C11', 'R5', 'the side-input cache is an append-only log of the batches in arrival order: recorded batches are never modified, reordered or removed before the loop ends')
+def c11_r5(ctx):
+    """Every later round replays `cache[0..]` front to back (C11.R3), so the replay equals what the first round saw only if the log keeps
+    the batches as they arrived: a new batch goes to the END (push, or merged into the LAST entry), nothing else touches the entries.
+    Merging a batch into an earlier entry of the same sender moves its elements - and the end-of-side marker it may carry - ahead of
+    other senders' batches."""
+    facts = ctx.facts
+    APPEND = {'push', 'last_mut', 'extend', 'extend_from_slice', 'reserve', 'push_back'}
+    READ = {'len', 'is_empty', 'iter', 'get', 'index', 'first', 'last', 'as_slice', 'deref', 'clone', 'capacity', 'clear', 'truncate', 'shrink_to_fit', 'into_iter', 'as_ref', 'borrow'}
+    fns = [f for f in facts.lib_fns() if (f.impl_adt or '').startswith('renoir::operator::start::binary::') and f.kind == 'assoc' and getattr(f, 'original', None) is None]
+    seen = {}
+    for f0 in fns:
+        for f in [f0] + facts.closures_of(f0):
+            sym = q.sym(facts, f)
+            for bi, t in f.calls():
+                if not t['args']:
+                    continue
+                recv = render(strip(sym.operand(t['args'][0])))
+                # the call's receiver is the cache vector itself (possibly behind a reborrow / deref), not an element taken out of it
+                import re as _re
+                m = _re.fullmatch(r'[&*]*(?:Deref(?:Mut)?::deref(?:_mut)?\()?[&*]*([\w.^*]*\.cache)\)?', recv)
+                if not m:
+                    continue
+                name = (t['callee'].get('path') or '?').rsplit('::', 1)[-1]
+                seen.setdefault(name, []).append(t['at'])
+                if name in APPEND or name in READ:
+                    continue
+                ctx.viol('%s|cache-mutated|%s' % (f0.path, name), t['at'],
+                         'the side-input cache is accessed with `%s`: a recorded batch can be modified / reordered / removed, so a replayed round no '
+                         'longer presents the side input in the order (and with the end-of-side marker where) the first round saw it' % name, None)
+    ctx.inst('SideReceiver.cache|mutators', {k: v[:3] for k, v in seen.items()})
+    if 'push' not in seen:
+        raise AnchorMissing('no push into the side-input cache found')
